@@ -168,13 +168,13 @@ static const bool kNumberOnRoot = C10_NUMBER_ON_ROOT;
 //  C10_ROOT_REMOVED_IS_GONE   notes/patches/C10-8-root-remove-releases-the-element.patch
 //  C10_VIEW_OVERLONG_ELEMENT  notes/patches/C10-9-config-assign-parent-fixup-on-failure.patch
 #ifndef C10_POISON_ITEM_SLACK
-#define C10_POISON_ITEM_SLACK 0
+#define C10_POISON_ITEM_SLACK 1
 #endif
 #ifndef C10_ROOT_REMOVED_IS_GONE
-#define C10_ROOT_REMOVED_IS_GONE 0
+#define C10_ROOT_REMOVED_IS_GONE 1
 #endif
 #ifndef C10_VIEW_OVERLONG_ELEMENT
-#define C10_VIEW_OVERLONG_ELEMENT 0
+#define C10_VIEW_OVERLONG_ELEMENT 1
 #endif
 
 // C view of the element store of mpt::config::root: { v-table, unique_array<config_item> }, an item is
